@@ -58,6 +58,86 @@ def classify(case, i, m, s):
     return None
 
 
+def load_translator_module():
+    import sys
+    sys.path.insert(0, os.path.join(vf.ROOT, "translator"))
+    import tr_turn  # noqa
+    return tr_turn
+
+
+def run_table(chk, binp):
+    """`c03 table`: Turn::from_angle and bearing_to_destination of the compiled code over the whole i16 range"""
+    out = os.path.join(chk.outdir, "table")
+    os.makedirs(out, exist_ok=True)
+    rc, log = vf.sh([binp, "table", "--out", out], timeout=300)
+    if rc != 0:
+        return None, log[-800:]
+    try:
+        return json.load(open(os.path.join(out, "table.json"))), None
+    except Exception as e:  # noqa
+        return None, repr(e)
+
+
+def coq_turn_failures(chk):
+    """`TR.line_turn_failures` over the regenerated table -> (count, [(h1, h2)...] one pair per heading difference)"""
+    d = os.path.join(chk.outdir, "turnfail")
+    os.makedirs(d, exist_ok=True)
+    p = os.path.join(d, "turnfail.v")
+    open(p, "w").write("From Coq Require Import ZArith List String Floats.\n"
+                       "From RC Require Import Base.Show Model.TraversalRun.\nImport ListNotations.\nOpen Scope Z_scope.\n"
+                       "Set Printing Width 1000000.\nSet Printing Depth 1000000.\n"
+                       "Eval vm_compute in (TR.line_turn_failures 0).\n")
+    lines, err = vf.coq_eval_file(p)
+    for ln in lines:
+        if ln.startswith("T 0 "):
+            n, body = ln[4:].split(" ", 1)
+            pairs = [tuple(int(x) for x in e.split(">")) for e in body.strip("[]").split(",") if e]
+            return int(n), pairs, None
+    return 0, [], (err or "no T line")[-600:]
+
+
+def fbits(x):
+    import struct
+    return "0x%016x" % struct.unpack("<Q", struct.pack("<d", x))[0]
+
+
+TURNS = ["NoTurn", "SlightRight", "SlightLeft", "Right", "Left", "SharpRight", "SharpLeft", "UTurn"]
+
+
+def turn_case(h1, h2):
+    """a two-edge route whose only turn goes from heading h1 into heading h2; every turn class has its own delay"""
+    feat = lambda kind, unit: [kind, unit, fbits(0.0)]  # noqa
+    return {"nv": 3, "edges": [[0, 1, fbits(300.0), 300.0], [1, 2, fbits(301.0), 301.0]],
+            "features": [["distance", feat("distance", "Meters")], ["time", feat("time", "Seconds")]], "user": [],
+            "tm": {"kind": "distance", "du": "Meters"},
+            "am": {"kind": "turn", "headings": [[h1, None], [h2, None]],
+                   "table": [[t, fbits(0.0 if i == 0 else 2.0 * (i + 0.5)), 0.0 if i == 0 else 2.0 * (i + 0.5)] for i, t in enumerate(TURNS)],
+                   "unit": "Seconds", "fname": "time"},
+            "cost": {"weights": [["distance", fbits(1.0), 1.0], ["time", fbits(1.0), 1.0]],
+                     "vrates": [["distance", "raw"], ["time", "raw"]], "nrates": [], "mul": False},
+            "op": {"kind": "forward", "es": [0, 1]}, "summary": True}
+
+
+def replay_turn_failures(chk, binp, pairs):
+    done = []
+    for n, (h1, h2) in enumerate(pairs[:8]):
+        d = os.path.join(chk.outdir, "turnwitness%d" % n)
+        os.makedirs(d, exist_ok=True)
+        rp = os.path.join(d, "case.json")
+        case = {"id": 0, "family": "turn_table_failure", "headings": [h1, h2], "case": turn_case(h1, h2)}
+        json.dump({"case": case, "stream": "walk"}, open(rp, "w"))
+        r = vf.run_stream(binp, "walk", 1, chk.seed, os.path.join(d, "run"), shards=1, replay=rp)
+        i = next(iter(r.impl.get("I", {}).values()), None)
+        s = next(iter(r.model.get("S", {}).values()), None)
+        done.append({"headings": [h1, h2], "impl": (i or "")[:200], "spec": (s or "")[:200]})
+        if s is not None and i != s:
+            chk.violation("impl-counterexample", "walk", case, i, s,
+                          detail="heading pair %d -> %d (difference %d): the regenerated turn table disagrees with the specification "
+                                 "(computed in Coq); replayed on the implementation as a two-edge route taking exactly that turn"
+                                 % (h1, h2, ((h2 - h1 + 180) % 360) - 180), key="turn-%d" % (((h2 - h1 + 180) % 360) - 180))
+    return done
+
+
 def run(chk):
     chk.coverage["trusted_base"] = [
         "Coq 8.16.1 kernel + vm_compute",
@@ -80,15 +160,50 @@ def run(chk):
         "never-decreasing: edge lengths and table delays are >= 0 (speeds > 0 and lengths > 0 are enforced by Time::create)",
         "edge-oriented queries' zero-cost origin/destination edges and the A* re-open case are outside this check"]
 
-    # ---- regenerate the tables the model reads (needed in VERIF_REPO mode as well)
+    binp = vf.build_harness("c03")
+    gen_dir = os.path.join(vf.COQ, "Gen")
+    tr = load_translator_module()
+
+    # ---- tie 1: regenerate coq/Gen/TurnTable.v.  Route 1: the source text (translator/tr_turn.py).  Route 2: the
+    #      behaviour of the compiled code, tabulated exhaustively over i16 by `c03 table`.  Route 2 replaces route 1
+    #      when the text is not of a shape the translator reads (a re-formatting is then no alarm); when both exist they
+    #      must describe the same functions.  Only when neither works the run fails closed.
     tres = vf.run_translators(which=["turn", "units", "cost"])
     t = tres.get("turn", {"ok": False, "msg": "translator tr_turn.py missing"})
+    parsed = t.pop("parsed", None)
     chk.coverage["translator"] = {k: t.get(k) for k in ("ok", "msg", "digest", "changed")}
+    beh, beh_err = run_table(chk, binp)
+    chk.coverage["table_source"] = "source-text"
     if not t.get("ok"):
-        chk.violation("broken-correspondence", "translator", {"translator": "tr_turn", "error": t.get("msg")}, t.get("msg"),
-                      "turn.rs / edge_heading.rs have the shape the translator knows",
-                      detail="coq/Gen/TurnTable.v could not be regenerated; the previous table (if any) is used below",
-                      found=False, key="translator")
+        bres, why = None, beh_err
+        if beh is not None:
+            try:
+                bres = tr.generate_from_behaviour(beh, gen_dir)
+            except Exception as e:  # noqa  TranslateError or malformed table.json
+                why = "%s: %s" % (type(e).__name__, e)
+        if bres is not None:
+            chk.coverage["table_source"] = "behaviour"
+            chk.coverage["translator"]["fallback"] = {"reason": t.get("msg"), "msg": bres["msg"]}
+            vf.log("translator: %s -> table rebuilt from behaviour (%s)" % (t.get("msg"), bres["msg"]))
+        else:
+            chk.violation("broken-correspondence", "translator",
+                          {"translator": "tr_turn", "error": t.get("msg"), "behavioural_extraction": why},
+                          "%s; behavioural extraction: %s" % (t.get("msg"), why),
+                          "turn.rs / edge_heading.rs have the shape the translator knows, or the compiled functions are a range "
+                          "table and a single wrap of the heading difference",
+                          detail="coq/Gen/TurnTable.v could not be regenerated by either route; the previous table (if any) is used below",
+                          found=False, key="translator")
+    elif not chk.replay:
+        if beh is None:
+            bad = [{"error": beh_err}]
+        else:
+            bad = tr.compare_with_behaviour(parsed, beh)
+        chk.coverage["behavioural_extraction"] = {"agrees_with_source_text": not bad, "disagree": bad[:4]}
+        if bad:
+            chk.violation("broken-correspondence", "table", {"disagree": bad[:4]},
+                          "the compiled Turn::from_angle / bearing_to_destination differ from the table read from the source text",
+                          "both routes give the same table", detail="translator bug or a source construct it mis-reads",
+                          found=False, key="behaviour-table")
     for name in ("units", "cost"):
         r = tres.get(name, {})
         if not r.get("ok", False):
@@ -96,8 +211,11 @@ def run(chk):
 
     # Props/Links.v: the composition theorems (C01/C02/C05/C10/C13 -> C03) are re-checked with this property
     chk.proofs(extra_targets=["Model/TraversalRun.vo", "Model/E2ERun.vo"], extra_props=["Props/Links.v"])
-    binp = vf.build_harness("c03")
     quick = chk.tier == "quick"
+
+    # ---- heading pairs on which the regenerated table disagrees with the specification, computed inside Coq
+    nfail, pairs, ferr = coq_turn_failures(chk)
+    chk.coverage["turn_table_failures"] = {"count": nfail, "first_pair_per_heading_difference": pairs} if ferr is None else {"error": ferr}
 
     only = None
     if chk.replay:
@@ -123,6 +241,18 @@ def run(chk):
         chk.add_stream(r, RULE_APP)
         vf.compare(chk, r, classify=classify, binpath=binp_app)
 
+    # ---- every failing table entry is replayed on the implementation (a two-edge route taking exactly that turn)
+    if pairs and not chk.replay:
+        chk.coverage["turn_table_failures_replayed"] = replay_turn_failures(chk, binp, pairs)
+
     if chk.broken_obligation:
-        chk.violation("broken-obligation", "proofs", {"obligations": chk.broken_obligation}, "does not check", "Qed",
-                      found=False, key="obligation")
+        # Gen/TurnTable.v is regenerated from the code, so a changed arm lands here.  The search for the failing input was:
+        # the streams + the replay of every failing table entry.
+        found = [v for v in chk.violations if v["found_failing_input"]]
+        if found and pairs:
+            for v in found:
+                v["detail"] += " | proof obligations that no longer check: " + "; ".join(str(x) for x in chk.broken_obligation)[:1500]
+        else:
+            chk.violation("broken-obligation", "proofs", {"obligations": chk.broken_obligation,
+                                                          "turn_table_failures": chk.coverage.get("turn_table_failures")},
+                          "does not check", "Qed", found=False, key="obligation")
